@@ -25,6 +25,8 @@ DEFAULT_FEATURES = {
     "plans": False,          # submissions / faults from behaviours
     "throws": False,
     "queue_ops": False,
+    "flags": False,
+    "pseudo": False,
 }
 
 PROFILES = {
@@ -37,6 +39,9 @@ PROFILES = {
     "rtc":   {"plans": True, "queue_ops": True, "completion": True},
     "throw": {"throws": True, "plans": True, "completion": True},
     "all":   {"completion": True, "defer": True, "history": True, "blocking": True},
+    "flags": {"flags": True, "max_depth": 2, "p_sub": 0.45},
+    "events": {"base_events": True, "kleene": True, "nevents": 5},
+    "pseudo": {"pseudo": True, "history": True, "p_sub": 0.6, "max_depth": 1},
 }
 
 class Gen:
@@ -79,6 +84,8 @@ class Gen:
                 if sub is None and f["blocking"] and k > 0 and rng.random() < 0.2:
                     kind = "term" if rng.random() < 0.5 else ["intr"] + rng.sample(self.events, rng.randint(1, 2))
                 st = state(kind=kind, sub=sub, zone=z)
+                if f["flags"] and rng.random() < 0.4:
+                    st["flags"] = sorted(rng.sample([0, 1, 2], rng.randint(1, 2)))
                 states.append(st)
             zones.append(list(range(first, first + n)))
         rows = []
@@ -141,10 +148,67 @@ class Gen:
                     cand = [e for e in self.events if e not in handled]
                     if cand:
                         st["defers"] = rng.sample(cand, 1)
+        pseudo = {"explicit": [], "entrypts": [], "exitpts": []}
+        if f["pseudo"] and depth > 0:
+            base_events = [e for e in self.events]      # exit-point events need a converting constructor: all generated events have one
+            for z, members in enumerate(zones):
+                simple = [s for s in members if states[s]["sub"] is None and states[s]["kind"] == "simple"]
+                if simple and rng.random() < 0.6:
+                    s0 = rng.choice(simple)
+                    states[s0]["explicit"] = True
+                    pseudo["explicit"].append(s0)
+                if simple and rng.random() < 0.4:
+                    e = rng.choice(self.events)
+                    p = len(states)
+                    states.append(state(kind="entrypt", zone=z))
+                    zones[z].append(p)
+                    r = self.mk_row(p, rng.choice(simple))
+                    r["trig"] = ["ev", e]
+                    rows.append(r)
+                    pseudo["entrypts"].append((p, e))
+                if simple and rng.random() < 0.4:
+                    ex = rng.choice(base_events)
+                    p = len(states)
+                    states.append(state(kind=["exitpt", ex], zone=z))
+                    zones[z].append(p)
+                    r = self.mk_row(rng.choice(simple), p)
+                    rows.append(r)
+                    pseudo["exitpts"].append((p, ex))
         hist = "none"
         if f["history"] and depth > 0:
             hist = rng.choice(["none", "always", ["shallow"] + rng.sample(self.events, rng.randint(1, 2))])
-        return machine(states, inits, rows, irows, hist)
+        # rows of this machine that use the pseudo states of its submachines
+        for i, st in enumerate(states):
+            sub = st["sub"]
+            if sub is None or "_pseudo" not in sub:
+                continue
+            ps = sub.pop("_pseudo")
+            members = zones[st["zone"]]
+            others = [x for x in members if x != i and states[x]["kind"] in ("simple",) and states[x]["sub"] is None]
+            if not others:
+                continue
+            for s0 in ps["explicit"]:
+                r = self.mk_row(rng.choice(others), i)
+                r["tgt"] = ["direct", i, [s0]]
+                rows.append(r)
+            if len(ps["explicit"]) >= 2 and rng.random() < 0.7:
+                r = self.mk_row(rng.choice(others), i)
+                r["tgt"] = ["direct", i, sorted(ps["explicit"], key=lambda x: sub["states"][x]["zone"])]
+                rows.append(r)
+            for p, e in ps["entrypts"]:
+                r = self.mk_row(rng.choice(others), i)
+                r["trig"] = ["ev", e]
+                r["tgt"] = ["entrypt", i, p]
+                rows.append(r)
+            for p, ex in ps["exitpts"]:
+                r = self.mk_row(i, rng.choice(others))
+                r["trig"] = ["ev", ex]
+                r["exitpt"] = p
+                rows.append(r)
+        m = machine(states, inits, rows, irows, hist)
+        if f["pseudo"] and depth > 0:
+            m["_pseudo"] = pseudo
+        return m
 
     def gen_mdef(self):
         root = self.gen_machine(0)
